@@ -519,7 +519,7 @@ pub fn run(ctx: &Ctx) -> i32 {
         Finish {
             ctx,
             level: "exploration",
-            rule: "a port made Slave by the protocol (two Announces + BMCA), recording filter with generated mean-delay replies, delay asymmetry of both signs; up to three Sync exchanges (one/two-step, ids around 65535->0, corrections of both signs up to 2^60, sub-ns receive timestamps, second boundaries, large magnitudes) and Delay exchanges whose ids the port chooses; schedule = generated sequence of deliveries with duplication, omission, reordering, late transmit timestamps, frames from a non-parent / for another requester, parent switch, leaving slave; 1/16 of the cases start after 65530..65536 delay requests (id wrap). Plus exhaustive enumeration of all schedules of length <= 6 (thorough 7) over a 7-symbol alphabet. Oracle: every Measurement must equal, bit for bit, the formula for one exchange with equal sequence id from the current parent. Part daemon: the real statime daemon slaved for 6-10 s to a grandmaster played by the harness (kernel transmit/receive timestamps, generated offset up to +-3 s and drift up to +-60 ppm, so that the daemon's clock is stepped and slewed during the case); the harness records every Sync it sent and every Delay_Req it answered and reads the daemon's clock off the daemon's master port; every measurement in the daemon's log must be that of one of those exchanges (event time within 2 ms of it) and carry its value: raw sync offset = t2 - t1, raw delay offset = t3 - t4 computed from the harness's own timestamps (latency 0..300 us, clock reading +-100 us). Non-trivial = not the in-order schedule and >= 1 measurement; distinct by schedule.",
+            rule: "a port made Slave by the protocol (two Announces + BMCA), recording filter with generated mean-delay replies, delay asymmetry of both signs; up to three Sync exchanges (one/two-step, ids around 65535->0, corrections of both signs up to 2^60, sub-ns receive timestamps, second boundaries, large magnitudes) and Delay exchanges whose ids the port chooses; schedule = generated sequence of deliveries with duplication, omission, reordering, late transmit timestamps, frames from a non-parent / for another requester, parent switch, leaving slave; 1/16 of the cases start after 65530..65536 delay requests (id wrap). Plus exhaustive enumeration of all schedules of length <= 6 (thorough 7) over a 7-symbol alphabet. Oracle: every Measurement must equal, bit for bit, the formula for one exchange with equal sequence id from the current parent. Part daemon: the real statime daemon slaved for 6-10 s to a grandmaster played by the harness (kernel transmit/receive timestamps, generated offset up to +-3 s and drift up to +-60 ppm, so that the daemon's clock is stepped and slewed during the case); the harness records every Sync it sent and every Delay_Req it answered and reads the daemon's clock off the daemon's master port; every measurement in the daemon's log must be that of one of those exchanges (event time within 2 ms of it) and carry its value: raw sync offset = t2 - t1, raw delay offset = t3 - t4 computed from the harness's own timestamps (latency 0..300 us, clock reading +-100 us), minus the configured delay asymmetry (0, -2 ms, +1.5 ms, +12.345678 ms by worker), with the E2E or the P2P mechanism (workers 4-7), in half of the cases with the slave port's egress throttled for 1.2-2.5 s so that transmit timestamps come late. Non-trivial = not the in-order schedule and >= 1 measurement; distinct by schedule.",
             assumptions: vec!["double transmit timestamps are unrepresentable through the public API (TimestampContext is neither Clone nor constructible)".into(), "deliveries whose corrected time would be negative are skipped here (C03/C16)".into(), "halving tolerance: 1 unit of 2^-32 ns".into()],
             min_nontrivial: 100,
         },
